@@ -1027,6 +1027,12 @@ class SrcCalloutsNative(Unit):
         P.prove((want is None and got is None) or (want is not None and got is not None and norm(got) == norm(want)),
                 "Callout Section == one object per encoded callout, in order, each showing exactly its own FRU / PCE / MRU values")
         P.prove(used == len(inp['sec']) - 8, "the SRC consumes exactly its section")
+        body = inp['sec'][8:]
+        wc = body[3]
+        want_words = [("Hex Word %d" % k, "%08X" % int.from_bytes(body[8 + 4 * (k - 2):12 + 4 * (k - 2)], 'big')) for k in range(2, wc + 1)]
+        got_words = [(k, v) for k, v in js.items() if k.startswith("Hex Word")]
+        P.prove(got_words == want_words, "Hex Word 2..count: exactly the valid words, each the 32-bit word stored for it, none beyond the count")
+        P.prove(js.get("Reference Code") == body[40:72].decode().strip(), "Reference Code == the 32 ASCII characters without surrounding blanks")
 
 
 UNITS = UNITS + [SrcCalloutsNative]
